@@ -11,7 +11,7 @@
 (* Slot i of n in a package of measure m sits at measure m + i/n, four      *)
 (* beats per measure (no measure-fraction packages).                        *)
 (***************************************************************************)
-EXTENDS BeatTime
+EXTENDS BeatTime, TLC, SequencesExt
 
 Evs(lvl) == UNION { { <<P, k>> : k \in DOMAIN lvl[P].evs } : P \in DOMAIN lvl }
 Pm(lvl, x) == lvl[x[1]].m
@@ -21,10 +21,11 @@ Ev(lvl, x) == lvl[x[1]].evs[x[2]]
 PosLt(lvl, x, y) == Pm(lvl, x) < Pm(lvl, y) \/ (Pm(lvl, x) = Pm(lvl, y) /\ Pi(lvl, x) * Pn(lvl, y) < Pi(lvl, y) * Pn(lvl, x))
 
 P4800(lvl, x) == Pm(lvl, x) * 19200 + (19200 * Pi(lvl, x)) \div Pn(lvl, x)
-RECURSIVE SortTempo(_, _)
-SortTempo(lvl, S) == IF S = {} THEN <<>>
-                     ELSE LET x == CHOOSE x \in S : \A y \in S : P4800(lvl, x) <= P4800(lvl, y) IN
-                          << [p |-> P4800(lvl, x), bl |-> Ev(lvl, x).bl] >> \o SortTempo(lvl, S \ {x})
+(* sorted by position with TLC!SortSeq (Java); ties keep package order *)
+SortTempo(lvl, S) ==
+    LET keyed == { [p |-> P4800(lvl, x), bl |-> Ev(lvl, x).bl, x |-> x] : x \in S }
+        srt == SortSeq(SetToSeq(keyed), LAMBDA a, b : a.p < b.p \/ (a.p = b.p /\ (a.x[1] < b.x[1] \/ (a.x[1] = b.x[1] /\ a.x[2] < b.x[2]))))
+    IN  [k \in DOMAIN srt |-> [p |-> srt[k].p, bl |-> srt[k].bl]]
 TempoEvents(lvl) == { x \in Evs(lvl) : lvl[x[1]].ch = 1 }
 (* header tempo from 0, then every tempo event in position order *)
 TempoList(f, lvl) ==
@@ -66,8 +67,9 @@ HoldsMatch(D, lst, tol) ==
     /\ \A i \in DOMAIN lst : \E d \in D : lst[i].c = d.c /\ Abs(lst[i].t - d.t) <= tol /\ Abs(lst[i].t + lst[i].n - d.t - d.n) <= tol
 (* the chart's tempo list is the header tempo at 0 and every tempo event at its time *)
 TempoMatch(f, lvl, bpms, tol) ==
-    LET tl == TempoList(f, lvl) IN
-    /\ \A k \in DOMAIN tl : \E i \in DOMAIN bpms : Abs(bpms[i].t - TStart(tl, 0, k)) <= tol /\ Abs(bpms[i].bl - tl[k].bl) <= 1
-    /\ \A i \in DOMAIN bpms : \E k \in DOMAIN tl : Abs(bpms[i].t - TStart(tl, 0, k)) <= tol
+    LET tl == TempoList(f, lvl)
+        st == Starts(tl, 0) IN
+    /\ \A k \in DOMAIN tl : \E i \in DOMAIN bpms : Abs(bpms[i].t - st[k]) <= tol /\ Abs(bpms[i].bl - tl[k].bl) <= 1
+    /\ \A i \in DOMAIN bpms : \E k \in DOMAIN tl : Abs(bpms[i].t - st[k]) <= tol
                                                   \/ (bpms[i].t = 0 /\ bpms[i].bl = f.bl0)
 =============================================================================
